@@ -27,7 +27,7 @@ void eval(Ctx& c) {
 }  // namespace
 void reg_ns() {
   for (const char* n : {"navierstokes_2d_compressible", "navierstokes_3d_compressible"}) {
-    Sol s; s.name = n; s.prop = "C03"; s.nargs = n[13] - '0'; s.draw = roy_draw; s.point = box_point; s.eval = eval; s.stretch = 1;
+    Sol s; s.name = n; s.prop = "C03"; s.nargs = n[13] - '0'; s.draw = roy_draw; s.point = box_point; s.eval = eval; s.stretch = 1; s.nodal = roy_nodal;
     s.special_ok = [](const std::string& n) { return (n == "k" || n == "mu") ? 2 : default_special_ok(n); };
     add(s);
   }
